@@ -218,22 +218,45 @@ class Prop:
             except Exception as e:  # noqa: BLE001
                 return [-1, H.err_class(e)]
 
+        side = dict(memo=None, warn=None, dunder_iter=None)   # behaviour outside the model, judged by the oracle only
+        sentinel = []          # falsy on purpose: an empty collector is the typical memo argument
+
         def one_visit(call, trigger, shape):
             calls = []
+            memos = []
+            fired = []
 
             def cb(node, memo):
                 k = len(calls)
                 calls.append(H.nid(node))
+                memos.append(memo)
                 if trigger is not None and fires(trigger, H.nid(node), k):
+                    fired.append(shape[0])
                     return act(shape)
                 return None
 
             stats["visits"] += 1
-            try:
-                res = call(cb)
-            except Exception as e:  # noqa: BLE001
-                return [calls, [-1, H.err_class(e)]]
-            return [calls, res_obs(res)]
+            own_memo = stats["visits"] % 2 == 0
+            kw = dict(memo=sentinel) if own_memo else {}
+            with warnings.catch_warnings(record=True) as wlist:
+                warnings.simplefilter("always")
+                try:
+                    res = call(cb, **kw)
+                    out = [calls, res_obs(res)]
+                except Exception as e:  # noqa: BLE001
+                    out = [calls, [-1, H.err_class(e)]]
+            # memo: the caller's object (or one fresh dict per traversal) reaches every call
+            if memos and side["memo"] is None:
+                if own_memo and any(m is not sentinel for m in memos):
+                    side["memo"] = f"memo: caller's memo object not passed to every call ({calls})"
+                if not own_memo and (not isinstance(memos[0], dict) or any(m is not memos[0] for m in memos)):
+                    side["memo"] = f"memo: default memo is not one dict per traversal ({calls})"
+            # documented: a StopIteration signal is accepted but a RuntimeWarning is emitted; nothing else warns
+            warned = any(issubclass(w.category, RuntimeWarning) for w in wlist)
+            expect_warn = bool(fired) and "StopIter" in fired[-1]
+            if warned != expect_warn and side["warn"] is None:
+                side["warn"] = f"warning: RuntimeWarning emitted={warned} expected={expect_warn} for signal {shape} ({calls})"
+            return out
 
         def visit_obs(call):
             b = one_visit(call, None, None)
@@ -249,16 +272,22 @@ class Prop:
 
         t_it = ([it_obs(lambda m=m: tree.iterator(m), sort=m in (IterMethod.RANDOM_ORDER, IterMethod.UNORDERED)) for m in METHS]
                 if 0 in istarts else [])
-        t_vis = [visit_obs(lambda cb, m=m: tree.visit(cb, method=m)) for m in METHS] if 0 in vstarts else []
+        t_vis = [visit_obs(lambda cb, m=m, **kw: tree.visit(cb, method=m, **kw)) for m in METHS] if 0 in vstarts else []
         n_it = [[[it_obs(lambda m=m, a=a, nd=nd: nd.iterator(m, add_self=a)) for m in METHS] for a in (False, True)]
                 for nd in nodes if H.nid(nd) in istarts]
-        n_vis = [[[visit_obs(lambda cb, m=m, a=a, nd=nd: nd.visit(cb, method=m, add_self=a)) for m in METHS] for a in (False, True)]
+        n_vis = [[[visit_obs(lambda cb, m=m, a=a, nd=nd, **kw: nd.visit(cb, method=m, add_self=a, **kw)) for m in METHS] for a in (False, True)]
                  for nd in nodes if H.nid(nd) in vstarts]
+        # `for n in tree` / `for n in node` (__iter__ = iterator): pre-order without the start node
+        if 0 in istarts and [H.nid(x) for x in tree] != t_it[0]:
+            side["dunder_iter"] = "__iter__: `for n in tree` differs from tree.iterator()"
+        for nd, ob in zip([x for x in nodes if H.nid(x) in istarts], n_it):
+            if [H.nid(x) for x in nd] != ob[0][0]:
+                side["dunder_iter"] = f"__iter__: `for n in node` differs from node.iterator() at {H.nid(nd)}"
         reg = [H.nid(x) for x in tree._node_by_id.values()]
         reg_ok = sorted(reg) == sorted(H.nid(x) for x in nodes)
         obs = [t_it, t_vis, n_it, n_vis, reg_ok]
 
-        fail = self.oracle(tree, nodes, istarts, vstarts, sigs, counts, sn, sk, obs)
+        fail = self.oracle(tree, nodes, istarts, vstarts, sigs, counts, sn, sk, obs, side)
         nat = lambda l: H.coq_list(f"{x}%nat" for x in l)  # noqa: E731
         coq = (f"({H.coq_forest(tree._root, U)}, {nat(reg)}, Sel {nat(istarts)} {nat(vstarts)} {nat(sorted(sigs))} {nat(counts)} "
                f"{H.coq_list(coq_raw(s) for s in sn)} {H.coq_list(coq_raw(s) for s in sk)})")
@@ -267,7 +296,7 @@ class Prop:
                     key=H.digest([desc["nodes"], desc.get("sel"), desc["sn"], desc["sk"]]), stats=stats)
 
     # ----- the property statement, executed on pointer structure
-    def oracle(self, tree, nodes, istarts, vstarts, sigs, counts, sn, sk, obs):
+    def oracle(self, tree, nodes, istarts, vstarts, sigs, counts, sn, sk, obs, side):
         t_it, t_vis, n_it, n_vis, reg_ok = obs
         root = tree._root
         ids = H.nid
@@ -380,6 +409,9 @@ class Prop:
                             return f"visit {MNAMES[mi]}: {label} signal {r} at call {k}: got {o} expected {e}"
             return None
 
+        for k in ("memo", "warn", "dunder_iter"):
+            if side[k]:
+                return side[k]
         if not reg_ok:
             return "registry: tree._node_by_id does not hold exactly the reachable nodes"
         if t_it:
